@@ -121,8 +121,9 @@ class MicroDVDWriter(BaseWriter):
         if line.type_ == CaptionNode.TEXT:
             # a line end inside the text (LF, CR, CR LF - the only line ends
             # the reader knows) would cut the cue's line in the file: write
-            # it as a line break; U+0085, U+2028 ... are ordinary characters
-            return sub + '|'.join(split_lines(line.content))
+            # every one of them as a line break, also at either end of the
+            # node; U+0085, U+2028 ... are ordinary characters
+            return sub + re.sub('\r\n|\r|\n', '|', line.content)
         elif line.type_ == CaptionNode.BREAK:
             return sub + '|'
         else:
